@@ -1327,6 +1327,7 @@ impl Scenario for AllAuth {
             Step::Transfer { ct, idx, to, eff, top, msgs } => self.apply_transfer(*ct, *idx, to, eff, top, msgs, ctx),
             Step::Probe { variant, role, idx, eff, top, msgs, inner, adv_ns, cell } => self.apply_probe(*variant, *role, *idx, eff, top, msgs, inner.as_ref(), *adv_ns, *cell, ctx),
         }
+        self.check_child_admins(ctx);
     }
 
     fn simplify(step: &Step) -> Vec<Step> {
@@ -1342,6 +1343,39 @@ impl Scenario for AllAuth {
 }
 
 impl AllAuth {
+    /// Migration of a child is a chain-level right of the child's wasm admin: "migrations of children
+    /// succeed only for ... their factory" therefore needs every pair / trio / vault / incentive to have
+    /// its factory CONTRACT (not a person) as admin, before and after ownership transfers.
+    fn check_child_admins(&self, ctx: &mut Ctx) {
+        let h = &self.h;
+        let mut kids: Vec<(&str, &str, &str)> = vec![];
+        for p in &h.pairs {
+            kids.push(("pair", p.addr.as_str(), h.pool_factory.as_str()));
+        }
+        for t in &h.trios {
+            kids.push(("trio", t.addr.as_str(), h.pool_factory.as_str()));
+        }
+        for v in &h.vaults {
+            kids.push(("vault", v.addr.as_str(), h.vault_factory.as_str()));
+        }
+        for (i, _) in &h.incentives {
+            kids.push(("incentive", i.as_str(), h.incentive_factory.as_str()));
+        }
+        ctx.eval("C16");
+        for (kind, addr, factory) in kids {
+            match h.app.wrap().query_wasm_contract_info(addr) {
+                Ok(info) => {
+                    if info.admin.as_deref() != Some(factory) {
+                        ctx.fail("C16", "child_admin_is_its_factory", kind, None, format!("{kind} {addr}: wasm admin {:?}, its factory is {factory}: the right to migrate it is not the factory's", info.admin));
+                        return;
+                    }
+                }
+                Err(_) => {}
+            }
+        }
+        ctx.probe("child_admins_checked");
+    }
+
     /// the matrix cell of this run: the target instance is index 0 (the one whose ownership was
     /// transferred in phase B)
     fn gen_probe_cell(&self, rng: &mut Rng, v: usize, role: Role, _phase_b: bool) -> Option<Step> {
